@@ -341,6 +341,14 @@ func c02Push(w *W) {
 	calls := c2Senders(w, s, kind, "P", nsend, nmsg, accepted)
 	if faulty {
 		w.Sleep(time.Duration(w.Choose(simrt.SProg, 300)) * time.Microsecond)
+		if stalledVictim && w.Choose(simrt.SProg, 2) == 0 {
+			// (the stalled peer goes only when everything has been sent: what was
+			// given to it is blocked in its connection, the rest has arrived)
+			for _, c := range calls {
+				c.Wait(5 * time.Second)
+			}
+			w.Settle()
+		}
 		w.Fault("close")
 		w.Op("pull%d closes mid-way", victim)
 		pulls[victim].Close()
